@@ -31,6 +31,7 @@ X_MUL_TOP = X('mul_top', CA, r'auto operator\(\)\(ChannelValue a, ChannelValue b
               rules=[('R6.drop_to_unsigned', r'using to_unsigned = detail::channel_convert_to_unsigned<ChannelValue>;', '', True),
                      ('R6.drop_from_unsigned', r'using from_unsigned = detail::channel_convert_from_unsigned<ChannelValue>;', '', True),
                      ('R6.drop_multiplier', r'using multiplier_unsigned = channel_multiplier_unsigned<typename to_unsigned::result_type>;', '', True),
+                     ('R4.CV_ctor', r'\bChannelValue\(', '(C_T)(', False),
                      ('R11.from_unsigned', r'\bfrom_unsigned\(\)\(', 'FROM_UNSIGNED(', True),
                      ('R11.multiplier', r'\bmultiplier_unsigned\(\)\(', 'MUL_UNSIGNED(', True),
                      ('R11.to_unsigned', r'\bto_unsigned\(\)\(', 'TO_UNSIGNED(', True)])
